@@ -196,6 +196,13 @@ def e_est(c):
         b_new = float(lib(PPM.BER_analizer, "estimator", eye_obj=fresh, M=M, decision=dec))
         check(b_upd == b_new, "estimator-uses-stale-eye", f"ppm.BER_analizer({dec}): {b_upd} vs {b_new}")
     check(float(lib(OOK.BER_analizer, "estimator", eye_obj=ey)) == float(lib(OOK.BER_analizer, "estimator", eye_obj=fresh)), "estimator-uses-stale-eye", "ook.BER_analizer")
+    # ... and the order M handed over NOW: the same eye object analysed for another PPM order (one measured eye, several candidate formats)
+    for M2 in [m_ for m_ in (2, 4, 16, 64, 256) if m_ != M][:: 2 if M % 3 else 1][:3]:
+        t_same, t_new = float(lib(PPM.THRESHOLD_EST, ey, M2)), float(lib(PPM.THRESHOLD_EST, eye(mu0=ey.mu0, mu1=ey.mu1, s0=ey.s0, s1=ey.s1), M2))
+        check(t_same == t_new, "estimator-uses-stale-order", f"ppm.THRESHOLD_EST(eye, {M2}) after M={M} on the same eye object: {t_same} vs {t_new} for a new object")
+        b_same = float(lib(PPM.BER_analizer, "estimator", eye_obj=ey, M=M2, decision="hard"))
+        b_new = float(lib(PPM.BER_analizer, "estimator", eye_obj=eye(mu0=ey.mu0, mu1=ey.mu1, s0=ey.s0, s1=ey.s1), M=M2, decision="hard"))
+        check(b_same == b_new, "estimator-uses-stale-order", f"ppm.BER_analizer(hard, M={M2}) after M={M} on the same eye object: {b_same} vs {b_new}")
     # optimum_threshold: MAP crossing of the two weighted Gaussians
     S0, S1 = s0 ** 2, s1 ** 2
     crossing = []
